@@ -27,35 +27,64 @@ type graph struct {
 	Name string
 	Pre  []int
 	Adds map[int][]int
+	// Meet: f for this item, after its Adds, does not return before f has begun
+	// for every listed item (calls that need each other: an idle runner must be
+	// woken for a pending item even while the running calls do not finish).
+	// MinN is the number of runners such a graph needs.
+	Meet map[int][]int
+	MinN int
 }
 
 var graphs = []graph{
-	{"G1 single item", []int{1}, nil},
-	{"G2 two pre-added", []int{1, 2}, nil},
-	{"G3 1->{2,3}", []int{1}, map[int][]int{1: {2, 3}}},
-	{"G4 chain 1->2->3", []int{1}, map[int][]int{1: {2}, 2: {3}}},
-	{"G5 dups+cycle 1->{2,3},2->{3},3->{1}", []int{1}, map[int][]int{1: {2, 3}, 2: {3}, 3: {1}}},
-	{"G6 pre-added duplicates {1,1,2}", []int{1, 1, 2}, nil},
-	{"G7 empty", nil, nil},
-	{"G8 1->{2},{3 pre}", []int{1, 3}, map[int][]int{1: {2}, 3: {2}}},
-	{"G9 fan 1->{2,3,4}", []int{1}, map[int][]int{1: {2, 3, 4}}},
+	{"G1 single item", []int{1}, nil, nil, 0},
+	{"G2 two pre-added", []int{1, 2}, nil, nil, 0},
+	{"G3 1->{2,3}", []int{1}, map[int][]int{1: {2, 3}}, nil, 0},
+	{"G4 chain 1->2->3", []int{1}, map[int][]int{1: {2}, 2: {3}}, nil, 0},
+	{"G5 dups+cycle 1->{2,3},2->{3},3->{1}", []int{1}, map[int][]int{1: {2, 3}, 2: {3}, 3: {1}}, nil, 0},
+	{"G6 pre-added duplicates {1,1,2}", []int{1, 1, 2}, nil, nil, 0},
+	{"G7 empty", nil, nil, nil, 0},
+	{"G8 1->{2},{3 pre}", []int{1, 3}, map[int][]int{1: {2}, 3: {2}}, nil, 0},
+	{"G9 fan 1->{2,3,4}", []int{1}, map[int][]int{1: {2, 3, 4}}, nil, 0},
 	// item 0 is the nil interface value, a legal item like any other comparable value
-	{"G10 nil item pre-added {nil,1}", []int{0, 1}, nil},
-	{"G11 nil item added by f 1->{nil,2}", []int{1}, map[int][]int{1: {0, 2}}},
+	{"G10 nil item pre-added {nil,1}", []int{0, 1}, nil, nil, 0},
+	{"G11 nil item added by f 1->{nil,2}", []int{1}, map[int][]int{1: {0, 2}}, nil, 0},
 	// an f that adds more items than the queue held when it started
-	{"G12 tree 1->{2,3},2->{4,5}", []int{1}, map[int][]int{1: {2, 3}, 2: {4, 5}}},
-	{"G13 tree {1,2 pre},1->{3,4,5}", []int{1, 2}, map[int][]int{1: {3, 4, 5}}},
+	{"G12 tree 1->{2,3},2->{4,5}", []int{1}, map[int][]int{1: {2, 3}, 2: {4, 5}}, nil, 0},
+	{"G13 tree {1,2 pre},1->{3,4,5}", []int{1, 2}, map[int][]int{1: {3, 4, 5}}, nil, 0},
+	// distinct items that print alike or differ only in dynamic type
+	{"G19 look-alikes {7, \"7\", int64(7), two pointers to equal structs, nil, \"<nil>\"}", []int{7, 8, 12, 9, 10, 0, 11}, nil, nil, 0},
+	{"G20 look-alikes added by f 7->{\"7\", int64(7)}, ptrA->{ptrB}", []int{7, 9}, map[int][]int{7: {8, 12}, 9: {10}}, nil, 0},
+	{"G14 1->{2,3}, f(2) and f(3) wait for each other", []int{1}, map[int][]int{1: {2, 3}}, map[int][]int{2: {3}, 3: {2}}, 2},
+	{"G15 {1,2 pre}, f(1) and f(2) wait for each other", []int{1, 2}, nil, map[int][]int{1: {2}, 2: {1}}, 2},
+	{"G16 1->{2,3}, f(1) waits until f(2) and f(3) have begun", []int{1}, map[int][]int{1: {2, 3}}, map[int][]int{1: {2, 3}}, 3},
+	{"G17 1->{2}, f(1) waits until f(2) has begun", []int{1}, map[int][]int{1: {2}}, map[int][]int{1: {2}}, 2},
+	{"G18 1->{2,3}, f(1) waits for f(2) and f(3) to begin, which wait for each other", []int{1}, map[int][]int{1: {2, 3}}, map[int][]int{1: {2, 3}, 2: {3}, 3: {2}}, 3},
 }
 
 // itemOf maps a graph node to the value handed to Work; node 0 is the nil
 // interface, node 5 a string, the others ints, so that items of several dynamic
 // types (all comparable) are in play.
+type boxed struct{ v int }
+
+// two distinct pointers to equal values: distinct items that print alike
+var boxA, boxB = &boxed{1}, &boxed{1}
+
 func itemOf(i int) any {
 	switch i {
 	case 0:
 		return nil
 	case 5:
 		return "five"
+	case 8:
+		return "7" // prints like the int 7
+	case 9:
+		return boxA
+	case 10:
+		return boxB
+	case 11:
+		return "<nil>" // prints like the nil item
+	case 12:
+		return int64(7) // equal-looking, different dynamic type
 	}
 	return i
 }
@@ -65,8 +94,24 @@ func idOf(item any) int {
 	case nil:
 		return 0
 	case string:
-		if v == "five" {
+		switch v {
+		case "five":
 			return 5
+		case "7":
+			return 8
+		case "<nil>":
+			return 11
+		}
+	case *boxed:
+		if v == boxA {
+			return 9
+		}
+		if v == boxB {
+			return 10
+		}
+	case int64:
+		if v == 7 {
+			return 12
 		}
 	case int:
 		return v
@@ -145,6 +190,18 @@ func (in *instance) body() {
 		sched.Point(sched.Op{Kind: "f-begin", Obj: fmt.Sprint(i)})
 		for _, c := range g.Adds[i] {
 			w.Add(itemOf(c))
+		}
+		if need, ok := g.Meet[i]; ok && sched.Active() {
+			sched.Block(sched.Op{Kind: "f-waits-for", Obj: fmt.Sprint(need)}, func() bool {
+				o.mu.Lock()
+				defer o.mu.Unlock()
+				for _, p := range need {
+					if o.Entered[p] == 0 {
+						return false
+					}
+				}
+				return true
+			})
 		}
 		sched.Point(sched.Op{Kind: "f-end", Obj: fmt.Sprint(i)})
 		o.mu.Lock()
@@ -305,6 +362,30 @@ func main() {
 	var scs []scenario
 	for n := 1; n <= 3; n++ {
 		for gi := range graphs {
+			if strings.HasPrefix(graphs[gi].Name, "G19") || strings.HasPrefix(graphs[gi].Name, "G20") {
+				// many items, and what is at stake (distinct items that look alike are
+				// all run) does not depend on the schedule: a small bound suffices
+				b := -1
+				if n >= 2 {
+					b = 1
+				}
+				if n <= 2 || r.Thorough() {
+					scs = append(scs, scenario{n, gi, b})
+				}
+				continue
+			}
+			if graphs[gi].Meet != nil {
+				// calls that need each other cannot complete with fewer runners
+				if n < graphs[gi].MinN {
+					continue
+				}
+				b := -1
+				if n == 3 && !r.Thorough() {
+					b = 3
+				}
+				scs = append(scs, scenario{n, gi, b})
+				continue
+			}
 			tree := strings.HasPrefix(graphs[gi].Name, "G12") || strings.HasPrefix(graphs[gi].Name, "G13")
 			switch {
 			case r.Thorough() && n == 3 && tree:
@@ -321,6 +402,9 @@ func main() {
 	}
 	if r.Thorough() {
 		for gi := range graphs {
+			if graphs[gi].Meet != nil || strings.HasPrefix(graphs[gi].Name, "G19") || strings.HasPrefix(graphs[gi].Name, "G20") {
+				continue
+			}
 			scs = append(scs, scenario{4, gi, 2})
 		}
 	}
